@@ -16,6 +16,9 @@ import c03_gen as G
 from renormalizer import Mps, Mpo
 from renormalizer.mps import MpDm
 from renormalizer.mps.lib import compressed_sum, _sum
+from renormalizer.mps import gs
+from renormalizer.utils import EvolveConfig, EvolveMethod, CompressConfig, CompressCriteria, OptimizeConfig
+import c06_num as N6
 
 TOL = 1e-9
 
@@ -50,6 +53,9 @@ import c03_gen as G
 from renormalizer import Mps, Mpo, Op
 from renormalizer.mps import MpDm
 from renormalizer.mps.lib import compressed_sum, _sum
+from renormalizer.mps import gs
+from renormalizer.utils import EvolveConfig, EvolveMethod, CompressConfig, CompressCriteria, OptimizeConfig
+import c06_num as N6
 def relerr(x, ref): return float(np.linalg.norm(np.asarray(x) - np.asarray(ref)) / max(1.0, np.linalg.norm(ref)))
 def cplx(mp, seed):
     r = np.random.RandomState(seed); mp = mp.to_complex()
@@ -146,6 +152,7 @@ def run_case(case_seed, maxsite, fails, stats):
     nsite = rng.choice([n for n in (2, 2, 3, 3, 4, 4, 5) if n <= maxsite])
     ncomp = rng.choice([1, 1, 2])
     trivial = rng.random() < 0.15
+    ncomp_trivial = trivial
     mseed = rng.randrange(10 ** 9)
     model, sites = G.build_model(random.Random(mseed), nsite, ncomp, trivial)
     lines = ["np.random.seed(%d)" % (case_seed % (2 ** 31)),
@@ -269,11 +276,88 @@ def run_case(case_seed, maxsite, fails, stats):
     for step in range(nops):
         opk = rng.choice(["add", "add", "sub", "scale", "conj", "apply", "apply", "opop", "opadd", "conj_trans", "opscale",
                           "dot", "norm", "distance", "distance", "opdot", "opdistance", "dm", "dmapply", "dmadd", "contract",
-                          "csum", "csum", "neardist", "neardist", "neardist"])
+                          "csum", "csum", "neardist", "neardist", "neardist", "evolved", "evolved", "evolved"])
         stats.setdefault("ops", {})
         try:
             name = fresh()
-            if opk == "csum":
+            if opk == "evolved":
+                # a state / density operator that came out of an evolution step (every scheme) or of optimize_mps is an
+                # operand like any other: apply / add / dot / MpDm.apply on it must work and agree with dense algebra
+                if ncomp_trivial:
+                    continue
+                hseed = rng.randrange(10 ** 9)
+                hterms, _ = N6.hermitian_terms(random.Random(hseed), sites)
+                if hterms is None:
+                    continue
+                Hm = Mpo(model, hterms)
+                dms_ = [o for o in pool if o.kind == "dm"]
+                want_dm = rng.random() < 0.5
+                if want_dm:
+                    if not dms_:
+                        base = pick("state")
+                        if base is not None and not np.iscomplexobj(np.asarray(base.mp[0].array)):
+                            dn = fresh()
+                            dmo = Obj(MpDm.from_mps(base.mp), np.diag(base.ref), "dm", dn); dmo.q = base.q; dmo.refexpr = "r_" + dn
+                            lines.append("%s = MpDm.from_mps(%s); r_%s = np.diag(r_%s)" % (dn, base.expr, dn, base.expr))
+                            pool.append(dmo)
+                            dms_ = [dmo]
+                src = rng.choice(dms_) if (dms_ and want_dm) else pick("state")
+                if src is None or max(src.mp.bond_dims) > 30:
+                    continue
+                how = rng.choice(N6.SCHEMES + ["optimize_mps"]) if src.kind == "state" else rng.choice(N6.SCHEMES)
+                if np.linalg.norm(G.dense_op(Hm) @ src.ref if src.kind == "state" else G.dense_op(Hm) @ src.ref) < 1e-9:
+                    continue
+                y = src.mp.copy()
+                lines.append("Hm = Mpo(model, N6.hermitian_terms(random.Random(%d), sites)[0]); %s = %s.copy()" % (hseed, name, src.expr))
+                try:
+                    if how == "optimize_mps":
+                        y.optimize_config = OptimizeConfig(procedure=[[6, 0.4], [6, 0]])
+                        _, y = gs.optimize_mps(y, Hm)
+                        lines.append("%s.optimize_config = OptimizeConfig(procedure=[[6, 0.4], [6, 0]]); _, %s = gs.optimize_mps(%s, Hm)" % (name, name, name))
+                    else:
+                        y.ensure_right_canonical(); y.canonicalise(); y.canonicalise()
+                        y.compress_config = CompressConfig(CompressCriteria.fixed, max_bonddim=12)
+                        y.evolve_config = EvolveConfig(getattr(EvolveMethod, how))
+                        y = y.evolve(Hm, 0.05)
+                        lines.append("%s.ensure_right_canonical(); %s.canonicalise(); %s.canonicalise(); %s.compress_config = CompressConfig(CompressCriteria.fixed, max_bonddim=12); "
+                                     "%s.evolve_config = EvolveConfig(EvolveMethod.%s); %s = %s.evolve(Hm, 0.05)" % (name, name, name, name, name, how, name, name))
+                except Exception as ex:
+                    stats.setdefault("evolve_exceptions", {})
+                    stats["evolve_exceptions"][how] = stats["evolve_exceptions"].get(how, 0) + 1
+                    lines.pop()
+                    continue
+                stats.setdefault("evolved", {})
+                stats["evolved"]["%s:%s" % (src.kind, how)] = stats["evolved"].get("%s:%s" % (src.kind, how), 0) + 1
+                ry = (G.dense_state(y) if src.kind == "state" else G.dense_op(y)) * y.coeff
+                lines.append("r_%s = dense(%s)" % (name, name))
+                yo = Obj(y, ry, src.kind, name); yo.q = src.q; yo.refexpr = "r_" + name
+                follow = [("apply", lambda: Hm.apply(y), lambda: G.dense_op(Hm) @ ry, "Hm.apply(%s)" % name, "G.dense_op(Hm) @ r_%s" % name),
+                          ("add", lambda: y.add(y.copy()), lambda: 2 * ry, "%s.add(%s.copy())" % (name, name), "2 * r_%s" % name)]
+                if src.kind == "dm":
+                    follow.append(("mpdm-apply-mpo", lambda: y.apply(Hm), lambda: ry @ G.dense_op(Hm), "%s.apply(Hm)" % name, "r_%s @ G.dense_op(Hm)" % name))
+                for fname, f, fref, fexpr, frefexpr in follow:
+                    nm2 = fresh()
+                    try:
+                        res = f()
+                    except Exception as ex:
+                        report("evolved-operand:%s:exception" % fname, {"op": fname, "operand_from": how, "kind": src.kind, "exception": repr(ex),
+                                                                          "qn_entry_types": sorted(set(type(q_).__name__ for q_ in y.qn))},
+                               "try:\n    %s\nexcept Exception as ex:\n    print('%s on the result of %s raised', repr(ex)); sys.exit(1)\nsys.exit(0)" % (fexpr, fname, how))
+                        return
+                    ref2 = fref()
+                    if np.linalg.norm(ref2) < 1e-9:
+                        continue
+                    lines.append("%s = %s; r_%s = %s" % (nm2, fexpr, nm2, frefexpr))
+                    o2 = Obj(res, ref2, src.kind, nm2); o2.q = src.q; o2.refexpr = "r_" + nm2
+                    if not check(o2, "evolved-operand:" + fname, ("", "L")):
+                        return
+                stats["checks"] = stats.get("checks", 0) + 1
+                dv = y.dot(y)
+                if not abs(dv - np.sum((ry / y.coeff) * (ry / y.coeff))) <= 1e-9 * max(1.0, abs(dv)):
+                    report("evolved-operand:dot", {"impl": repr(dv)}, "sys.exit(1)")
+                    return
+                pool.append(yo)
+            elif opk == "csum":
                 # sums of MANY operands through lib.compressed_sum / lib._sum (batched add + canonicalise + compress),
                 # non-truncating compress configuration: the result must be the dense sum
                 n = rng.choice([1, 2, 3, 4, 5, 6, 6, 7, 8, 9, 10, 11, 11, 12, 13, 16, 21, 26])
